@@ -175,6 +175,50 @@ class ClockSeam:
         return clock
 
 
+class BinnerOpBudget:
+    """Deterministic step counter for code that reads no clock and calls no caller-supplied function: every
+    operation of the two bins-managers (the one resource every algorithm works through) is counted, at class
+    level, and StepBudgetExceeded (a BaseException) is raised beyond the budget. Behaviour is unchanged otherwise.
+    The harness discards a run that hits the budget; a wall-clock watchdog never has to decide anything."""
+
+    METHODS = ("new_bins", "copy_bins", "add_item_to_bin", "sort_by_ascending_sum", "combine_bins",
+               "concatenate_bins", "add_empty_bins", "remove_bins")
+
+    def __init__(self):
+        self.ops = 0
+        self.budget = 10 ** 15
+        self.peak = 0
+        self._installed = False
+
+    def install(self):
+        if self._installed:
+            return
+        import prtpy
+        seam = self
+
+        def wrap(fn):
+            def counted(*a, **k):
+                seam.ops += 1
+                if seam.ops > seam.budget:
+                    raise StepBudgetExceeded("bins-manager operations")
+                return fn(*a, **k)
+            counted.__name__ = getattr(fn, "__name__", "counted")
+            counted.__doc__ = getattr(fn, "__doc__", None)
+            counted.__wrapped__ = fn
+            return counted
+        for cls in (prtpy.BinnerKeepingSums, prtpy.BinnerKeepingContents):
+            for name in self.METHODS:
+                fn = cls.__dict__.get(name)
+                if fn is not None and callable(fn) and not hasattr(fn, "__wrapped__"):
+                    setattr(cls, name, wrap(fn))
+        self._installed = True
+
+    def start(self, budget):
+        self.peak = max(self.peak, self.ops)
+        self.ops = 0
+        self.budget = budget
+
+
 class LogSeam:
     """Run-time configuration the deployment owns: the logging level of the `prtpy.*` loggers.
     Records are formatted (so that %-formatting and __str__/__repr__ of the logged objects really run)
